@@ -92,14 +92,30 @@ pub fn exec_epoch(
         "full": full,
     })
     .to_string();
+    // stderr: /dev/null, or (a seam of its own: `is_terminal()`) the slave side of a fresh pty
+    let mut pty_master: Option<std::fs::File> = None;
+    let stderr = if epoch.tty {
+        use std::os::fd::FromRawFd;
+        let (mut m, mut sl) = (0 as libc::c_int, 0 as libc::c_int);
+        let ok = unsafe { libc::openpty(&mut m, &mut sl, std::ptr::null_mut(), std::ptr::null(), std::ptr::null()) } == 0;
+        if ok {
+            pty_master = Some(unsafe { std::fs::File::from_raw_fd(m) });
+            Stdio::from(unsafe { std::fs::File::from_raw_fd(sl) })
+        } else {
+            Stdio::null()
+        }
+    } else {
+        Stdio::null()
+    };
     let mut child = Command::new(exe)
         .arg("child")
         .args(&epoch.argv)
         .stdin(Stdio::piped())
         .stdout(Stdio::piped())
-        .stderr(Stdio::null())
+        .stderr(stderr)
         .spawn()
         .map_err(|e| HarnessError(format!("spawn child: {e}")))?;
+    let _keep_master_open_until_the_child_is_done = &pty_master;
     let pid = child.id();
     WATCH
         .lock()
